@@ -239,3 +239,50 @@ Proof.
            conj (binary_vle_perm b v0 v1 i) (conj (binary_vle_rev v0 v1 i) (conj (binary_vle_length b v0 v1 i) (vlle_perm s1 s2)))).
 Qed.
 Print Assumptions C12_binary_assembly.
+
+(** * the acceptance test is part of the attempt — on the guessed path as on the guess-free one *)
+
+(** every result of pure_t / tp_flash / bubble-dew built from filtered attempts passed the acceptance test
+    (caller's tolerance, non-trivial, ...), with or without a guess *)
+Theorem C12_accepted_only : forall (P G R : Type) (accept : P -> R -> bool)
+    (raw_g : P -> G -> attempt R) (raw_0 : P -> stage -> attempt R) p g r,
+  (pure_t (fatt_g accept raw_g) (fatt_0 accept raw_0) p g = Some r -> accept p r = true) /\
+  (tp_flash (fatt_g accept raw_g) (fatt_0 accept raw_0) p g = Some r -> accept p r = true) /\
+  (bd_t (fatt_g accept raw_g) (fatt_0 accept raw_0) p g = Some r -> accept p r = true).
+Proof. exact accepted_only. Qed.
+Print Assumptions C12_accepted_only.
+
+(** State::critical_point: supplied initial temperature (no fallback) or trial temperatures; every result accepted *)
+Theorem C12_critical_point_accepted : forall (P G R : Type) (accept : P -> R -> bool)
+    (raw_g : P -> G -> attempt R) (raw_0 : P -> stage -> attempt R) p g r,
+  crit accept raw_g raw_0 p g = Some r -> accept p r = true.
+Proof. exact crit_accepted. Qed.
+Print Assumptions C12_critical_point_accepted.
+
+Theorem C12_critical_point_unique : forall (P G R : Type) (accept : P -> R -> bool)
+    (raw_g : P -> G -> attempt R) (raw_0 : P -> stage -> attempt R),
+  H_unique_att (fatt_g accept raw_g) (fatt_0 accept raw_0) ->
+  forall p g1 g2 r1 r2, crit accept raw_g raw_0 p g1 = Some r1 -> crit accept raw_g raw_0 p g2 = Some r2 -> r1 = r2.
+Proof. exact crit_unique. Qed.
+Print Assumptions C12_critical_point_unique.
+
+Theorem C12_critical_point_trials : forall (P G R : Type) (accept : P -> R -> bool)
+    (raw_g : P -> G -> attempt R) (raw_0 : P -> stage -> attempt R) p,
+  crit accept raw_g raw_0 p None =
+    match fatt_0 accept raw_0 p SIdeal with
+    | AOk r => Some r
+    | _ => match fatt_0 accept raw_0 p SSpin with
+           | AOk r => Some r
+           | _ => match fatt_0 accept raw_0 p SStab1 with AOk r => Some r | _ => None end
+           end
+    end.
+Proof. exact crit_none. Qed.
+Print Assumptions C12_critical_point_trials.
+
+(** a filter applied by the retry loop only is not enough: the guessed path bypasses it (witness) *)
+Theorem C12_filter_outside_attempt_refuted :
+  exists (accept : nat -> nat -> bool) (raw_g : nat -> nat -> attempt nat) p t r,
+    snd (cascade [(SGiven, true, raw_g p t)]) = Some r /\ accept p r = false
+    /\ crit accept raw_g (fun _ _ => AIterFail) p (Some t) = None.
+Proof. exact filter_outside_attempt_refuted. Qed.
+Print Assumptions C12_filter_outside_attempt_refuted.
